@@ -51,7 +51,7 @@ func (g *Gen) hostileCmd() []string {
 // targeted: shapes known to be dangerous for implementations of this kind
 func (g *Gen) targetedHostile() []string {
 	k := typedKeys[g.r.IntN(len(typedKeys))]
-	shape := g.r.IntN(24)
+	shape := g.r.IntN(26)
 	if g.chance(2) {
 		// mostly a key of the type the command works on: the dangerous paths lie
 		// behind the type check
@@ -62,6 +62,8 @@ func (g *Gen) targetedHostile() []string {
 			k = "ls"
 		case 22:
 			k = g.pick("ls", "ss")
+		case 5:
+			k = g.pick("hs", "ss")
 		}
 	}
 	big := g.pick("9223372036854775807", "-9223372036854775808", "4611686018427387904", "-4611686018427387904", "4294967296", "-1")
@@ -85,7 +87,18 @@ func (g *Gen) targetedHostile() []string {
 	case 4:
 		return []string{"LMPOP", "1", k, "LEFT", "COUNT", big}
 	case 5:
-		return []string{g.pick("HRANDFIELD", "SRANDMEMBER"), k, g.pick("-9223372036854775808", "-1", "0")}
+		// a count is a size: nothing may be allocated from it before it is bounded
+		cmd := g.pick("HRANDFIELD", "SRANDMEMBER", "SPOP")
+		if k == "hs" {
+			cmd = "HRANDFIELD"
+		} else if k == "ss" {
+			cmd = g.pick("SRANDMEMBER", "SPOP")
+		}
+		a := []string{cmd, k, g.pick("-9223372036854775808", "-1", "0", "9223372036854775807", "4611686018427387904", "2147483648", "-2147483649")}
+		if cmd == "HRANDFIELD" && g.chance(2) {
+			a = append(a, "WITHVALUES")
+		}
+		return a
 	case 6:
 		return []string{"BITCOUNT", k, mix(), mix()}
 	case 7:
@@ -124,6 +137,20 @@ func (g *Gen) targetedHostile() []string {
 			a = append(a, g.pick("ALPHA", "DESC", "ASC"))
 		}
 		return a
+	case 24, 25:
+		// line breaks in every argument an error message may quote back: the reply
+		// must stay one reply
+		n1, n2 := g.pick("a\r\nb", "x\r\n+OK", "\r\n", "\n", "q\rz", "nobody\r\n:1", "\r\n$-1\r\n"), g.pick("y\r\n:2", "z", "\r\n-ERR w")
+		shapes := [][]string{
+			{"CLIENT", n1}, {"CLIENT", n1, n2}, {"COMMAND", n1}, {"COMMAND", n1, n2}, {n1}, {n1, n2},
+			{"CLIENT", "KILL", "USER", n1}, {"CLIENT", "KILL", "TYPE", n1}, {"CLIENT", "KILL", n1, n2}, {"CLIENT", "KILL", "ID", n1},
+			{"CLIENT", "SETNAME", n1}, {"CLIENT", "NO-EVICT", n1}, {"CLIENT", "UNBLOCK", n1}, {"CLIENT", "UNBLOCK", "1", n1}, {"CLIENT", "REPLY", n1},
+			{"COMMAND", "INFO", n1}, {"COMMAND", "DOCS", n1}, {"COMMAND", "LIST", "FILTERBY", n1, n2}, {"COMMAND", "GETKEYS", n1, n2},
+			{"HELLO", n1}, {"HELLO", "3", "AUTH", n1, n2}, {"HELLO", "3", "SETNAME", n1}, {"SELECT", n1}, {"SET", k, "v", n1}, {"SET", k, "v", "EX", n1}, {"EXPIRE", k, n1},
+			{"INCRBY", k, n1}, {"LRANGE", k, n1, "1"}, {"OBJECT", n1, k}, {"CONFIG", n1, n2}, {"INFO", n1}, {"FLUSHALL", n1}, {"FLUSHDB", n1},
+			{"HINCRBY", k, "f", n1}, {"LINSERT", k, n1, "a", "b"}, {"LMOVE", k, k, n1, n2}, {"SETRANGE", k, n1, "x"}, {"BITOP", n1, k, k}, {"BITFIELD", k, n1, n2},
+		}
+		return shapes[g.r.IntN(len(shapes))]
 	default:
 		return []string{"CLIENT", "KILL", g.pick("ID", "ADDR", "LADDR", "USER", "TYPE", "SKIPME", "MAXAGE"), g.pick(big, "x", "normal", "pubsub", "nosuchuser", "yes")}
 	}
